@@ -1595,3 +1595,57 @@ func c13r18(rc *core.RC) {
 		}
 	}
 }
+
+// ---- C13.R19 every line an indenting interpreter begins starts with the prefix ----
+
+// json.Indent puts the prefix at the beginning of every line after the first, whatever the indent string is.
+// AppendIndent and AppendStructEndIndent are the two functions of the encoder that begin a line: each appends
+// ctx.Prefix and then the indent string once per level. Obligation: in every function of package encoder that appends
+// ctx.Prefix to its output, that append stands in front of every return of the function (no exit leaves it out,
+// e.g. for an empty indent string).
+func c13r19(rc *core.RC) {
+	p := rc.P
+	n := 0
+	for _, fd := range p.Funcs("encoder") {
+		if fd.Body == nil {
+			continue
+		}
+		info := p.Info(fd)
+		var prefixAppend *ast.AssignStmt
+		ast.Inspect(fd.Body, func(m ast.Node) bool {
+			as, ok := m.(*ast.AssignStmt)
+			if !ok || len(as.Rhs) != 1 || prefixAppend != nil {
+				return true
+			}
+			c, isCall := core.Unparen(as.Rhs[0]).(*ast.CallExpr)
+			if !isCall || !core.IsBuiltin(info, c, "append") || len(c.Args) != 2 || !c.Ellipsis.IsValid() {
+				return true
+			}
+			if f := core.FieldOf(info, core.Unparen(c.Args[1])); f != nil && f.Name() == "Prefix" {
+				prefixAppend = as
+			}
+			return true
+		})
+		if prefixAppend == nil {
+			continue
+		}
+		n++
+		rc.Touch(p.FuncName(fd))
+		key := p.FuncName(fd) + "/prefix-on-every-way-out"
+		cf := core.BuildCFGFor(fd, info)
+		var bad *ast.ReturnStmt
+		for _, r := range cf.Returns() {
+			if !cf.NodeBefore(prefixAppend, r) {
+				bad = r
+			}
+		}
+		if bad == nil {
+			rc.OK(key, prefixAppend.Pos(), "ctx.Prefix is appended in front of every return")
+		} else {
+			rc.Bad(key, bad.Pos(), "%s returns at %s without having written ctx.Prefix: the line it begins lacks the prefix that json.Indent puts there (MarshalIndent(v, \">\", \"\") differs from Indent(Marshal(v), \">\", \"\"))", p.FuncName(fd), p.Pos(bad.Pos()))
+		}
+	}
+	if n < 2 {
+		rc.Unknown("encoder/prefix-writers", token.NoPos, "found %d functions that append ctx.Prefix, fewer than the 2 confirmed by hand (AppendIndent, AppendStructEndIndent)", n)
+	}
+}
